@@ -1,18 +1,18 @@
 import LyModel.Lyb.TreeLemmasC
+import LyModel.Lyb.TreeLemmasE
 /-! The whole document: magic number, header byte, module table, top-level siblings, ending zero. -/
 namespace LyModel.LybTree
 open LyModel LyModel.Lyb LyModel.Tree LyModel.Generated LyModel.Generated.LybTree
 
-theorem doc_rt (P : Params) (hP : P.Ok) (o : POpts) (hopt : o.tagAll = false ∧ o.tagImpl = false) (S : LSchema)
+theorem doc_rt (P : Params) (hP : P.Ok) (o : POpts) (S : LSchema) (hwd : ∀ w, S.wd = some w → unpackRev (packRev w) = w)
     (hname : S.modName ≠ []) (hrev : unpackRev (packRev S.rev) = S.rev) (t : List DNode) (hwf : WfForest S t)
     (img : Bytes) (hp : printLyb P o S t = some img) (fuel : Nat) (hf : costL t + 1 ≤ fuel) :
-    parseLybF P S fuel img = some t := by
+    parseLybF P S fuel img = some (t.map (viewNode o S)) := by
   simp only [printLyb] at hp
   split at hp
   · simp at hp
   · rename_i ops hops
-    split at hp
-    · rename_i hnest
+    · have hnest := docOps_wellNested o S t ops hops
       have hat := at_init P hP ops hnest img hp
       obtain ⟨x1, y1, hx1, hy1, rfl⟩ := cat_eq_some hops
       obtain ⟨x2, y2, hx2, hy2, rfl⟩ := cat_eq_some hy1
@@ -47,7 +47,7 @@ theorem doc_rt (P : Params) (hP : P.Ok) (o : POpts) (hopt : o.tagAll = false ∧
         | zero => simp [costL] at hf
         | succ fuel =>
           simp only [parseLybF, e1, hm2, Bool.false_eq_true, ↓reduceIte, e2, hv, c1, e3, pModels, pSibs, pLoop, hw, e5,
-            Option.map_some]
+            Option.map_some, List.map_nil]
       | cons n rest =>
         simp only [List.isEmpty_cons, Bool.false_eq_true, ↓reduceIte] at hx2
         obtain ⟨u1, u2, hu1, hu2, rfl⟩ := cat_eq_some hx2
@@ -57,7 +57,7 @@ theorem doc_rt (P : Params) (hP : P.Ok) (o : POpts) (hopt : o.tagAll = false ∧
         obtain ⟨r3, e3, a3⟩ := rdNum_at P hP 0 P_MODCOUNT 1 (by decide) _ r2 a2
         obtain ⟨r4, e4, a4⟩ := model_at P hP 0 S.modName S.rev true u2 hu2 hname _ r3 a3
         have a5 := at_start P hP 0 _ r4 a4
-        obtain ⟨r6, e6, a6⟩ := sibs_none P hP o S hopt hname hrev (n :: rest) none x4 _ 0 (rstart P r4) hx4 hwf a5 fuel []
+        obtain ⟨r6, e6, a6⟩ := sibs_none P hP o S hwd hname hrev (n :: rest) none x4 _ 0 (rstart P r4) hx4 hwf a5 fuel []
           (by omega)
         obtain ⟨r7, e7, _⟩ := at_stop P 0 _ r6 a6
         have hmm : modMatches S.modName (unpackRev (packRev S.rev)) S.modName S.rev = true := by
@@ -68,6 +68,5 @@ theorem doc_rt (P : Params) (hP : P.Ok) (o : POpts) (hopt : o.tagAll = false ∧
           simp only [parseLybF, e1, hm2, Bool.false_eq_true, ↓reduceIte, e2, hv, c1, e3, pModels, e4, hmm, Bool.true_or,
             pSibs] at e6 ⊢
           simp only [show ((1 : Nat) != 0) = true from rfl, e6, e7, Option.map_some, List.nil_append]
-    · simp at hp
 
 end LyModel.LybTree
